@@ -81,6 +81,17 @@ Theorem C16_atomic_meaning : forall (c : store K St * pool K St L) ca, simrel K 
 Proof. exact (simrel_meaning K Keqb St L). Qed.
 End Generic.
 
+(* the sequential functions the linearizability theorem speaks about are, for the prefix table, those of C01 / C02
+   (Pfx/PfxTable.v: tvalidate, tadd, tremove): a call of pfx_table_validate_r / _add / _remove as an operation on
+   table l is well formed, and run alone it appends [call_result] and applies [call_effect] *)
+Theorem C16_pfx_calls : forall (K : Type) (Keqb : K -> K -> bool) l (c : pfx_call) lc (s : store K PfxTable.table),
+  op_ok (call_op K l c) = true /\
+  seq_op Keqb (call_op K l c) lc s = (lc ++ [call_result c (s l)], upd Keqb s l (call_effect c (s l))) /\
+  (forall v6 asn q qlen, call_result (CValidate v6 asn q qlen) = (fun T => RValidated (PfxTable.tvalidate T v6 asn q qlen))) /\
+  (forall r, call_effect (CAdd r) = (fun T => fst (fst (PfxTable.tadd T r)))) /\
+  (forall r, call_effect (CRemove r) = (fun T => fst (fst (PfxTable.tremove T r)))).
+Proof. exact pfx_calls_spec. Qed.
+
 (* (3) the instance.  [lock_skeletons] / [lock_programs] are the translator's output for every non-static function
    of trie-pfx.c and ht-spkitable.c (table names = C parameter names).  Lifecycle functions (they call
    pthread_rwlock_init / _destroy, so their caller must own the table exclusively) are only required to balance
@@ -134,6 +145,7 @@ Print Assumptions C16_unlocked_read_races.
 Print Assumptions C16_atomic_step.
 Print Assumptions C16_atomic.
 Print Assumptions C16_atomic_meaning.
+Print Assumptions C16_pfx_calls.
 Print Assumptions C16_translation_complete.
 Print Assumptions C16_lifecycle_balanced.
 Print Assumptions C16_instance_decided.
